@@ -237,6 +237,38 @@ var kindsAll = []int64{1, 1, 7, 4, 0, 3, 10002, 20001, 30023, 30023, 30024, 5,
 	1, 1, 7, 4, 0, 3, 10002, 20001, 30023, 30023, 30024, 5,
 	1, 1, 7, 4, 0, 3, 10002, 20001, 30023, 30023, 30024, 5,
 	2, 9999, 10000, 19999, 20000, 29999, 30000, 39999, 40000, 65535}
+// replaceable or addressable per NIP-01 (the harness's own reading of the ranges, not the repo's EventType)
+func isVersionedKind(k int64) bool {
+	return k == 0 || k == 3 || (10000 <= k && k < 20000) || (30000 <= k && k < 40000)
+}
+
+// an earlier event to make a new version of: mostly one of a replaceable / addressable kind, and among those the
+// kinds at a class boundary as often as the usual ones
+func pickVersioned(r *Rng, made []*mocrelay.Event) *mocrelay.Event {
+	if r.P(25) {
+		return pick(r, made)
+	}
+	var edge, usual []*mocrelay.Event
+	for _, e := range made {
+		if !isVersionedKind(e.Kind) {
+			continue
+		}
+		switch e.Kind {
+		case 10000, 19999, 30000, 39999:
+			edge = append(edge, e)
+		default:
+			usual = append(usual, e)
+		}
+	}
+	if len(edge) > 0 && (len(usual) == 0 || r.P(40)) {
+		return pick(r, edge)
+	}
+	if len(usual) > 0 {
+		return pick(r, usual)
+	}
+	return pick(r, made)
+}
+
 var dvals = []string{"", "x", "y", "x:y"}
 var tagVals = []string{"v1", "v2", "v3", ""}
 var tagNames = []string{"e", "p", "t", "a", "d", "E", "zz"}
